@@ -23,7 +23,7 @@ import (
 func init() { modes["C16CONN"] = runC16ConnChild }
 
 var c16Points = []string{"before-connect", "accept-pending", "after-connect", "mid-handshake", "after-handshake", "requests-in-flight", "mid-response", "mid-paging"}
-var c16Actors = []string{"client-close", "server-conn-close", "server-close", "network-loss", "client-context-cancel"}
+var c16Actors = []string{"client-close", "server-conn-close", "server-close", "network-loss", "client-context-cancel", "client-close-silent-peer"}
 var c16Versions = []primitive.ProtocolVersion{primitive.ProtocolVersion4, primitive.ProtocolVersion5, primitive.ProtocolVersionDse2}
 
 type c16Scn struct {
@@ -144,6 +144,16 @@ func runC16Scenario(res *lp.Result, s c16Scn) {
 				if !within(5*time.Second, func() { clientConn.Close() }) {
 					viol("Close does not return: client connection", goroutineDump())
 				}
+			}
+		case "client-close-silent-peer":
+			// the peer neither answers nor closes (a hung server, a peer lost without FIN or RST): nothing the client sends from now
+			// on is even read. Close must not wait for the peer.
+			if clientConn != nil {
+				px.hold()
+				if !within(5*time.Second, func() { clientConn.Close() }) {
+					viol("Close does not return: client connection whose peer has gone silent", goroutineDump())
+				}
+				px.release()
 			}
 		case "server-conn-close":
 			if serverConn != nil {
